@@ -731,6 +731,30 @@ def _verify_geometry(imp, raw, g, mesh, model, out, log, step):
                         out.violate("V4-filter-exact", "filter-then-join", {"step": step, "geometry": g, "set": nm, "variable": list(vs[0])})
                         return False
                     out.count("probe:filter_then_join")
+        # filter chains: an element set and a node set applied one after the other, in both orders - the rows that
+        # are members of both (only where such rows exist: an empty selection is not a mesh)
+        nsets = [(nm, set(ids)) for k, nm, ids in want_sets if k == "n"]
+        esets = [(nm, set(ids)) for k, nm, ids in want_sets if k == "e"]
+        for en, eids in esets[:3]:
+            for nn, nids in nsets[:3]:
+                want_rows = [r for r in want_idx if r[0] in eids and r[1] in nids]
+                if not want_rows:
+                    out.count("skipped:filter_chain_empty_selection")
+                    continue
+                for order in ("e-n", "n-e"):
+                    try:
+                        m = imp.make_mesh(g)
+                        m = m.filter_element_set(en).filter_node_set(nn) if order == "e-n" else m.filter_node_set(nn).filter_element_set(en)
+                        f = m.to_frame()
+                    except Exception as e:   # noqa
+                        out.violate("V4-filter-exact", "filter-chain", {"step": step, "geometry": g, "sets": [en, nn], "order": order,
+                                                                        "type": type(e).__name__, "msg": str(e)[:200]})
+                        return False
+                    if _frame_rows(f) != want_rows:
+                        out.violate("V4-filter-exact", "filter-chain", {"step": step, "geometry": g, "sets": [en, nn], "order": order,
+                                                                        "file": _frame_rows(f)[:40], "model": want_rows[:40]})
+                        return False
+                    out.count("probe:filter_chain_" + order)
     return True
 
 
